@@ -5,9 +5,11 @@ pub mod c01;
 pub mod c02;
 pub mod c03;
 pub mod c04;
+pub mod c05;
 pub mod c06;
 pub mod c07;
 pub mod c08;
+pub mod c09;
 pub mod c11;
 pub mod c12;
 pub mod c13;
@@ -25,9 +27,11 @@ pub fn registry() -> Vec<(&'static str, fn(&Report), Option<fn(&Value) -> String
         ("C02", c02::run, Some(c02::replay)),
         ("C03", c03::run, Some(c03::replay)),
         ("C04", c04::run, Some(c04::replay)),
+        ("C05", c05::run, Some(c05::replay)),
         ("C06", c06::run, Some(c06::replay)),
         ("C07", c07::run, Some(c07::replay)),
         ("C08", c08::run, Some(c08::replay)),
+        ("C09", c09::run, Some(c09::replay)),
         ("C11", c11::run, Some(c11::replay)),
         ("C12", c12::run, Some(c12::replay)),
         ("C13", c13::run, Some(c13::replay_case)),
